@@ -112,6 +112,18 @@ func c15Sequence(c *sim.Ctx, s []byte) *sim.Violation {
 	c.Count("sequences." + class)
 	switch class {
 	case "five-or-more-bytes", "ends-on-continuation":
+		// the same through the public entry point: the sequence as the PROPERTY LENGTH
+		// that ends the body of an acknowledgement / DISCONNECT / CONNACK
+		if len(s) <= 6 {
+			for _, pre := range [][]byte{{0x40, 0x00, 0x01, 0x00}, {0xE0, 0x00}, {0x20, 0x00, 0x00}, {0x62, 0x00, 0x01, 0x92}} {
+				body := append(append([]byte{}, pre[1:]...), s...)
+				frame := append([]byte{pre[0], byte(len(body))}, body...)
+				if o := ReadOne(link.NewReader(c.Muted(), frame, link.Mode{})); o.Kind != "error" {
+					return sim.V("C15/agreement/"+class+"/accepted-as-property-length", "frame %x: the property length %x %s, yet ReadPacket gives %s", frame, s, map[string]string{"five-or-more-bytes": "continues beyond four bytes", "ends-on-continuation": "ends on a continuation byte"}[class], oneOutcome(o))
+				}
+			}
+			c.Count("probe.invalid-sequence-as-property-length-through-ReadPacket")
+		}
 		if uerr == nil {
 			return sim.V("C15/agreement/"+class+"/in-memory-decoder-accepts", "sequence %x is accepted by the in-memory decoder with value %d", s, uv)
 		}
